@@ -382,19 +382,33 @@ func raceReport(s string) string {
 	return r
 }
 
-// raceClass names the two top frames of the racing accesses (stable across runs).
+// raceClass names the topmost frame outside the Go runtime of each of the two racing accesses
+// (stable across runs).
 func raceClass(s string) string {
 	rep := raceReport(s)
 	var fr []string
 	ls := strings.Split(rep, "\n")
 	for i, l := range ls {
-		if (strings.HasPrefix(l, "Write at") || strings.HasPrefix(l, "Read at") || strings.HasPrefix(l, "Previous write at") ||
-			strings.HasPrefix(l, "Previous read at")) && i+1 < len(ls) {
-			f := strings.TrimSpace(ls[i+1])
-			if k := strings.Index(f, "("); k > 0 {
-				f = f[:k]
+		if strings.HasPrefix(l, "Write at") || strings.HasPrefix(l, "Read at") || strings.HasPrefix(l, "Previous write at") ||
+			strings.HasPrefix(l, "Previous read at") {
+			// frames come as "  function(args)" followed by "      file:line +0x.."
+			top := ""
+			for j := i + 1; j < len(ls) && strings.TrimSpace(ls[j]) != ""; j += 2 {
+				f := strings.TrimSpace(ls[j])
+				if k := strings.LastIndex(f, "("); k > 0 { // the argument list, not a "(*T)" receiver
+					f = f[:k]
+				}
+				if top == "" {
+					top = f
+				}
+				if !strings.HasPrefix(f, "runtime.") && !strings.HasPrefix(f, "internal/") {
+					top = f
+					break
+				}
 			}
-			fr = append(fr, f)
+			if top != "" {
+				fr = append(fr, top)
+			}
 		}
 	}
 	return "race:" + strings.Join(fr, "|")
